@@ -4,7 +4,7 @@ import ast
 import z3
 from .symexec import (SV, SStr, SBool, SInt, SNone, SAdt, PyConst, PySeq, PyDict, PyRec, SOpaque, Unsupported,
                       _Raise, _Return, _Break, _Continue, SExc, Obligation)
-from .contracts_api import Fold, Unroll, Filter, MapComp
+from .contracts_api import Fold, Unroll, Filter, MapComp, InPlaceMap
 from .speceval import Val
 from .speclang import SpecFn
 from .calls import spec_bool, spec_term
@@ -55,6 +55,8 @@ def exec_for(I, s: ast.For):
             return
     if isinstance(rule, Fold):
         return fold_loop(I, s, k, rule)
+    if isinstance(rule, InPlaceMap):
+        return inplace_map_loop(I, s, k, rule)
     # concrete iteration (constant of the source, literal, *args tuple ...): exact unrolling
     it = I.eval(s.iter)
     items = I.iter_concrete(it, s)
@@ -339,3 +341,110 @@ def comprehension(I, e):
         else:
             I.st.env.pop(n, None)
     return PySeq(out, "list", True)
+
+
+# ------------------------------------------------------------------------------------------------
+def inplace_map_loop(I, s: ast.For, k: int, rule: InPlaceMap):
+    w = I.w
+    it = s.iter
+    if not (isinstance(it, ast.Call) and isinstance(it.func, ast.Name) and it.func.id == "enumerate" and len(it.args) == 1
+            and isinstance(it.args[0], ast.Name) and it.args[0].id == rule.list_var):
+        raise Unsupported(f"loop {k}: expected `for i, x in enumerate({rule.list_var})`")
+    names = target_names(s.target)
+    if len(names) != 2:
+        raise Unsupported("in-place map loop target")
+    ivar, xvar = names
+    lst = I.st.env.get(rule.list_var)
+    f = w.reg.fns[rule.fn]
+    lsort = f.params[0][1]
+    if not isinstance(lst, SAdt) or lst.sort != lsort:
+        lst = I.coerce_param(lst, lsort)
+    if not getattr(lst, "fresh", False):
+        I.oblige_frame(s, f"in-place update of `{rule.list_var}`, which is not local")
+    sh = I.list_shape(lst)
+    nil, cons, _tl = sh
+    esort = I.ctor(cons).fields[0][1]
+    outer_env = dict(I.st.env)
+    tag = f"{I.short()}:loop{k}" + ("" if not I.trace.decisions else "@" + "".join(map(str, I.trace.decisions)))
+    memo = I.__dict__.setdefault("_loop_memo", {})
+    if tag not in memo:
+        c = I.from_val(Val(esort, I.fresh(esort, xvar)))
+        idx = SInt(I.fresh("Int", ivar))
+        marker = SAdt(lsort, I.fresh(lsort, rule.list_var), fresh=True, pyclass="inplace")
+        stores = {}
+
+        def store_hook(obj, sl, v, node):
+            if obj is not marker and not (isinstance(obj, SAdt) and obj.pyclass == "inplace"):
+                return False
+            iv = I.eval(sl)
+            if not (isinstance(iv, SInt) and iv.t.eq(idx.t)):
+                raise Unsupported(f"loop {k}: write to `{rule.list_var}` at an index other than the loop index")
+            key = tuple(I.trace.decisions)
+            stores[id(I.trace)] = I.coerce_param(v, esort)
+            return True
+        I.inplace_store = store_hook
+
+        def run():
+            I.st.env = dict(outer_env)
+            I.st.env[rule.list_var] = marker
+            I.st.env[ivar] = idx
+            I.st.env[xvar] = c
+            stores.pop(id(I.trace), None)
+            try:
+                I.exec_block(s.body)
+            except _Continue:
+                pass
+            new = stores.get(id(I.trace), c)
+            return new
+        if rule.elem_inv:
+            I.st.pc.append(spec_bool(I, rule.elem_inv, {"c": I.to_val(c)}, tag))
+        paths = I.explore(run)
+        if rule.elem_inv:
+            I.st.pc.pop()
+        I.inplace_store = None
+        env0 = {"c": I.to_val(c)}
+        for n_, v_ in outer_env.items():
+            try:
+                env0.setdefault(n_, I.to_val(v_))
+            except Unsupported:
+                pass
+        stepv = spec_term(I, rule.step, env0, tag, want=esort)
+        rc = spec_bool(I, rule.elem_raises, env0, tag) if rule.elem_raises else z3.BoolVal(False)
+        where = I.src.line(I.module, s)
+        for pi, p in enumerate(paths):
+            pname = f"R:{tag}.body.p{pi}"
+            if p.outcome == "raise":
+                ok = z3.BoolVal(False) if rule.raises is None else z3.And(rc, z3.BoolVal(p.value.name == rule.raises))
+                I.obligations.append(Obligation(pname + ".raises", list(p.pc), ok, where, "R", f"body raises {p.value.name}: allowed only when `{rule.elem_raises}`"))
+                continue
+            I.obligations.append(Obligation(pname + ".noraise", list(p.pc), z3.Not(rc), where, "R", f"body completes, so `{rule.elem_raises}` must be false"))
+            I.obligations.append(Obligation(pname + ".elem", list(p.pc), I.to_val(p.value).v == stepv.v, where, "R", f"new element ≡ `{rule.step}`"))
+        # fn is the map of step; raises_fold is `exists`
+        r0 = I.fresh(lsort, "r")
+        consv = w.ctor_fn(I.ctor(cons))(I.to_val(c).v, r0)
+        nilv = w.ctor_fn(I.ctor(nil))
+        I.obligations.append(Obligation(f"R:{tag}.map.cons", list(I.st.pc), w.apply(rule.fn, consv) == w.ctor_fn(I.ctor(cons))(stepv.v, w.apply(rule.fn, r0)), where, "R", f"{rule.fn} is the map of the step"))
+        I.obligations.append(Obligation(f"R:{tag}.map.nil", list(I.st.pc), w.apply(rule.fn, nilv) == nilv, where, "R", ""))
+        if rule.list_inv:
+            li_c = spec_bool(I, rule.list_inv, {**env0, "xs": Val(lsort, consv)}, tag)
+            li_r = spec_bool(I, rule.list_inv, {**env0, "xs": Val(lsort, r0)}, tag)
+            einv = spec_bool(I, rule.elem_inv, env0, tag)
+            I.obligations.append(Obligation(f"R:{tag}.list_inv.cons", list(I.st.pc), li_c == z3.And(einv, li_r), where, "R", "list invariant is `all elem_inv`"))
+            I.obligations.append(Obligation(f"R:{tag}.list_inv.entry", list(I.st.pc), spec_bool(I, rule.list_inv, {"xs": I.to_val(lst)}, tag), where, "R",
+                                            f"`{rule.list_inv}` holds for the list the loop runs over"))
+        if rule.raises_fold:
+            lhs = spec_bool(I, rule.raises_fold, {**env0, "xs": Val(lsort, consv)}, tag)
+            rhs = z3.Or(rc, spec_bool(I, rule.raises_fold, {**env0, "xs": Val(lsort, r0)}, tag))
+            if rule.elem_inv:
+                lhs = z3.Implies(spec_bool(I, rule.elem_inv, env0, tag), lhs == rhs)
+                rhs = z3.BoolVal(True)
+            I.obligations.append(Obligation(f"R:{tag}.raises_fold.cons", list(I.st.pc), lhs == rhs, where, "R", "loop raises iff some element raises"))
+            I.obligations.append(Obligation(f"R:{tag}.raises_fold.nil", list(I.st.pc), z3.Not(spec_bool(I, rule.raises_fold, {**env0, "xs": Val(lsort, nilv)}, tag)), where, "R", ""))
+        memo[tag] = True
+    if rule.raises_fold:
+        cnd = spec_bool(I, rule.raises_fold, {"xs": I.to_val(lst)}, tag)
+        if I.branch(cnd):
+            raise _Raise(SExc(rule.raises, []), s.lineno)
+    I.st.env[rule.list_var] = SAdt(lsort, w.apply(rule.fn, lst.t), fresh=True, pyclass=lst.pyclass)
+    for t in names:
+        I.st.env[t] = SOpaque(f"value of {t} after loop {k}")
